@@ -424,3 +424,125 @@ func TestF57_TypeWildcardNeedsTheWholeType(t *testing.T) {
 		t.Fatalf("Accept: textual/html, application/json;q=0.1 with offers text/*, application/json selects %q", got)
 	}
 }
+
+// F58 (C13): the limiter classified a request as failed or successful by the response status alone; a handler that
+// fails the idiomatic way — by returning an error — still has status 200 at that point, so with
+// SkipSuccessfulRequests (count failures only, e.g. on a login route) failures were refunded and never limited,
+// and with SkipFailedRequests they were charged.
+func TestF58_LimiterClassifiesReturnedErrors(t *testing.T) {
+	for _, alg := range []limiter.Handler{limiter.FixedWindow{}, limiter.SlidingWindow{}} {
+		app := fiber.New()
+		app.Use(limiter.New(limiter.Config{Max: 2, Expiration: time.Minute, SkipSuccessfulRequests: true, LimiterMiddleware: alg}))
+		app.Post("/login", func(fiber.Ctx) error { return fiber.ErrUnauthorized })
+		for i, want := range []int{401, 401, 429} {
+			resp, err := app.Test(httptest.NewRequest("POST", "/login", nil))
+			if err != nil {
+				t.Fatal(err)
+			}
+			if resp.StatusCode != want {
+				t.Fatalf("%T, SkipSuccessfulRequests: failed attempt %d answered %d, want %d (failures signalled by a returned error are not counted)", alg, i+1, resp.StatusCode, want)
+			}
+		}
+		app = fiber.New()
+		app.Use(limiter.New(limiter.Config{Max: 1, Expiration: time.Minute, SkipFailedRequests: true, LimiterMiddleware: alg}))
+		app.Get("/", func(c fiber.Ctx) error {
+			if c.Query("fail") != "" {
+				return fiber.ErrBadRequest
+			}
+			return c.SendString("ok")
+		})
+		for i, tc := range []struct {
+			url  string
+			want int
+		}{{"/?fail=1", 400}, {"/?fail=1", 400}, {"/", 200}, {"/", 429}} {
+			resp, err := app.Test(httptest.NewRequest("GET", tc.url, nil))
+			if err != nil {
+				t.Fatal(err)
+			}
+			if resp.StatusCode != tc.want {
+				t.Fatalf("%T, SkipFailedRequests: request %d (%s) answered %d, want %d (a request that failed by returning an error was charged)", alg, i+1, tc.url, resp.StatusCode, tc.want)
+			}
+		}
+	}
+}
+
+// F59 (C01/C04): a sub-app's root-level Use lost its "matches everything" flag when the sub-app was mounted
+// (addPrefixToRoute cleared Route.root whatever the resulting pattern): mounted at "/", the middleware was
+// skipped for a path of slashes only, which the same middleware registered directly (or through Group("/")) sees.
+func TestF59_MountedRootMiddlewareSeesSlashOnlyPaths(t *testing.T) {
+	build := map[string]func(mw fiber.Handler) *fiber.App{
+		"direct": func(mw fiber.Handler) *fiber.App { app := fiber.New(); app.Use(mw); return app },
+		"group":  func(mw fiber.Handler) *fiber.App { app := fiber.New(); app.Group("/").Use(mw); return app },
+		"mount": func(mw fiber.Handler) *fiber.App {
+			app, sub := fiber.New(), fiber.New()
+			sub.Use(mw)
+			app.Use("/", sub)
+			return app
+		},
+	}
+	for name, mk := range build {
+		app := mk(func(c fiber.Ctx) error { return c.SendStatus(401) })
+		app.Get("/:id?", func(c fiber.Ctx) error { return c.SendString("secret") })
+		for _, p := range []string{"/", "/x", "//", "///"} {
+			rc := newRC("GET", "/")
+			rc.Request.SetRequestURI(p)
+			rc.Request.URI().SetPath(p)
+			app.Handler()(rc)
+			if rc.Response.StatusCode() != 401 {
+				t.Errorf("%s: GET %s: status %d, the root middleware was bypassed (body %q)", name, p, rc.Response.StatusCode(), rc.Response.Body())
+			}
+		}
+	}
+}
+
+type f60Ctx struct {
+	fiber.DefaultCtx
+}
+
+// F60 (C07): a custom context built the documented way (docs/api/app.md: `DefaultCtx: *fiber.NewDefaultCtx(app)`)
+// is a copy of the context NewDefaultCtx built; the Req()/Res() views kept pointing at the discarded original,
+// whose fasthttp context is nil — c.Req().Get(…) in a handler was a nil dereference that takes the server down.
+func TestF60_CustomContextReqRes(t *testing.T) {
+	app := fiber.New()
+	app.NewCtxFunc(func(app *fiber.App) fiber.CustomCtx {
+		return &f60Ctx{DefaultCtx: *fiber.NewDefaultCtx(app)}
+	})
+	app.Get("/", func(c fiber.Ctx) error {
+		c.Res().Set("X-Seen", c.Req().Get("X-A"))
+		return c.SendString(c.Req().Get("X-A"))
+	})
+	defer func() {
+		if p := recover(); p != nil {
+			t.Fatalf("c.Req()/c.Res() on a custom context panics: %v", p)
+		}
+	}()
+	for i := 0; i < 2; i++ {
+		rc := newRC("GET", "/")
+		rc.Request.Header.Set("X-A", "hello")
+		app.Handler()(rc)
+		if got := string(rc.Response.Body()); rc.Response.StatusCode() != 200 || got != "hello" || string(rc.Response.Header.Peek("X-Seen")) != "hello" {
+			t.Fatalf("request %d: %d %q X-Seen=%q", i+1, rc.Response.StatusCode(), got, rc.Response.Header.Peek("X-Seen"))
+		}
+	}
+}
+
+// F61 (C10): Hostname() cut the Host header at its last colon; for an IPv6 literal without a port
+// (`Host: [2001:db8::1]`) the cut lands inside the address.
+func TestF61_HostnameOfBracketedIPv6(t *testing.T) {
+	app := fiber.New()
+	app.Get("/", func(c fiber.Ctx) error { return c.SendString(c.Hostname()) })
+	for host, want := range map[string]string{
+		"example.com":        "example.com",
+		"example.com:8080":   "example.com",
+		"[2001:db8::1]":      "[2001:db8::1]",
+		"[2001:db8::1]:8080": "[2001:db8::1]",
+		"[::1]":              "[::1]",
+	} {
+		rc := newRC("GET", "/")
+		rc.Request.Header.SetHost(host)
+		app.Handler()(rc)
+		if got := string(rc.Response.Body()); got != want {
+			t.Errorf("Host: %s → Hostname() %q, want %q", host, got, want)
+		}
+	}
+}
